@@ -8,6 +8,7 @@ import (
 	"fmt"
 	"io"
 	"math/big"
+	"regexp"
 	"sort"
 	"strconv"
 	"strings"
@@ -2345,14 +2346,49 @@ func tokenTypes() []simplexer.TokenType{
 		t(LT, methodOps["lt"]),
 		t(ADD_CHAIN, `[&~=]`),
 		t(MAIN_CHAIN, `[\.@$]`),
-		t(IF, `if`),
-		t(ELSE, `else`),
-		t(RETURN, `return`),
-		t(YIELD, `yield`),
-		t(RAISE, `raise`),
-		t(DEFER, `defer`),
+		// NOTE: keywords must be whole words
+		// (otherwise an identifier like `iffy` is divided to `if` and `fy`)
+		newKeywordTokenType(IF, `if`, ident),
+		newKeywordTokenType(ELSE, `else`, ident),
+		newKeywordTokenType(RETURN, `return`, ident),
+		newKeywordTokenType(YIELD, `yield`, ident),
+		newKeywordTokenType(RAISE, `raise`, ident),
+		newKeywordTokenType(DEFER, `defer`, ident),
 		t(IDENT, ident),
 		t(PRIVATE_IDENT, fmt.Sprintf(`_+(%s)?`, ident)),
+	}
+}
+
+// keywordTokenType is a token type of a reserved word.
+// It matches only if the word is not a prefix of a longer identifier.
+type keywordTokenType struct {
+	id      simplexer.TokenID
+	word    string
+	identRe *regexp.Regexp
+}
+
+func newKeywordTokenType(id simplexer.TokenID, word string, ident string) *keywordTokenType {
+	return &keywordTokenType{
+		id:      id,
+		word:    word,
+		identRe: regexp.MustCompile("^(?:" + ident + ")"),
+	}
+}
+
+// GetID returns id of this token type.
+func (k *keywordTokenType) GetID() simplexer.TokenID {
+	return k.id
+}
+
+// FindToken returns new Token if s starts with this keyword.
+func (k *keywordTokenType) FindToken(s string, p simplexer.Position) *simplexer.Token {
+	if k.identRe.FindString(s) != k.word {
+		return nil
+	}
+	return &simplexer.Token{
+		Type:     k,
+		Literal:  k.word,
+		Position: p,
 	}
 }
 
